@@ -354,6 +354,9 @@ LITERAL_TEXTS = [
     # the OTHER kind of quote at the start / end of the content, alone, and on both sides
     ("\"'q'\"", "'q'"), ("'\"q\"'", '"q"'), ("'\"'", '"'), ("\"'\"", "'"), ("'say \"hi\"'", 'say "hi"'), ("\"x'\"", "x'"), ("'\"x'", '"x'),
     ("\"''\"", "''"), ("'\"\"'", '""'),
+    # white space characters inside a string are content: TAB (alone, leading, trailing, repeated), CR, form feed, no-break space
+    ("'a\tb'", 'a\tb'), ("'\t'", '\t'), ('"\tlead"', '\tlead'), ("'trail\t'", 'trail\t'), ("'a\t\tb c\td'", 'a\t\tb c\td'), ("'cr\rlf\n'", 'cr\rlf\n'),
+    ("'ff\x0cvt\x0b'", 'ff\x0cvt\x0b'), ("'nb\xa0sp'", 'nb\xa0sp'), ("'  '", '  '), ("' '", ' '),
     ("'SELECT'", 'SELECT'), ('"NULL"', 'NULL'), ("'2020-01-01'", '2020-01-01'), ("'1.5'", '1.5'), ("'back\\slash'", 'back\\slash'),
 ]
 
